@@ -130,6 +130,8 @@ func (Prop) Run(t *core.Tape, o core.RunOpts) *core.Result {
 	}
 	budget := int64(n*calls)*400 + 20000 // only there to end livelocks
 	salt := t.Word()
+	// what the code under test is told about the machine
+	procs := [...]int{4, 1, 2, 8, 16, 64}[t.Choose(6)]
 	arrive := make([]int64, n)
 	staggered := t.Bool(1, 4)
 	for i := range arrive {
@@ -145,6 +147,8 @@ func (Prop) Run(t *core.Tape, o core.RunOpts) *core.Result {
 			calls = 130/n + 1
 		}
 	}
+	sched.Procs = procs
+	res.Extra.Inc(fmt.Sprintf("reported_gomaxprocs_%02d", procs))
 	sched.ClearPending()
 	resetPackages() // every run starts from the package's initial state
 	s := sched.New(t, sched.Config{Strategy: strategy, Clock: clock, MaxSteps: budget, Keep: o.KeepTrace})
@@ -184,7 +188,11 @@ func (Prop) Run(t *core.Tape, o core.RunOpts) *core.Result {
 			var ids []uu.ID
 			if len(ExtraSources) > 0 && t.Bool(1, 3) {
 				k := t.Choose(len(ExtraSources))
-				ids = ExtraSources[k](1 + t.Choose(4))
+				want := 1 + t.Choose(4)
+				if t.Bool(1, 4) {
+					want = 17 + t.Choose(48) // batch APIs tend to change behaviour above some size
+				}
+				ids = ExtraSources[k](want)
 				res.Probes.Inc("extra_id_source_called")
 			} else {
 				ids = []uu.ID{uu.RandomID()}
